@@ -34,7 +34,7 @@ def run(ck):
     _, dist["lookahead_switched_off"] = JR.exact_join_fn()
     E, L, RU, EDP = af.Metrics.ENERGY, af.Metrics.LATENCY, af.Metrics.RESOURCE_USAGE, af.Metrics.ENERGY_DELAY_PRODUCT
     msets = [("ENERGY|LATENCY", E | L), ("ENERGY|LATENCY|RESOURCE_USAGE", E | L | RU), ("ENERGY", E), ("ENERGY_DELAY_PRODUCT", EDP), ("LATENCY|RESOURCE_USAGE", L | RU)]
-    for i in range(ck.n(14, 150)):
+    for i in range(ck.n(14, 100)):
         p = JR.gen_spec(rng, allow_three=ck.tier == "thorough")
         mname, metrics = msets[i % len(msets)] if i % 2 else msets[i // 2 % 2]
         dist["specs"] += 1
